@@ -177,8 +177,38 @@ theorem shapeE : (e : Expr) → ∀ (benv : BEnv) (t : VTy) (bs : List Bool) (p 
           rw [shape_muxEnv _ _ _ h2.symm, h1]
         · simp at h
       · simp at h
+    case shl =>
+      simp only [bitExpr] at h
+      split at h
+      · split at h
+        · rename_i k' x p1 env1 ha
+          split at h
+          · rename_i y p2 env2 hb
+            split at h
+            · simp only [Option.some.injEq, Prod.mk.injEq] at h; obtain ⟨_, _, _, rfl⟩ := h
+              rw [shapeE b _ _ _ _ _ hb, shapeE a _ _ _ _ _ ha]
+            · simp at h
+          · simp at h
+        · simp at h
+      · simp at h
+    case shr =>
+      simp only [bitExpr] at h
+      split at h
+      · split at h
+        · rename_i k' x p1 env1 ha
+          split at h
+          · rename_i y p2 env2 hb
+            split at h
+            · simp only [Option.some.injEq, Prod.mk.injEq] at h; obtain ⟨_, _, _, rfl⟩ := h
+              rw [shapeE b _ _ _ _ _ hb, shapeE a _ _ _ _ _ ha]
+            · simp at h
+          · simp at h
+        · simp at h
+      · simp at h
     all_goals
       simp only [bitExpr] at h
+      split at h
+      · simp at h
       split at h
       · simp at h
       · split at h
